@@ -261,6 +261,7 @@ def oracle(case, impl):
     if len(isteps) != len(steps):
         return ["malformed observation"]
     kinds = {}       # realm -> header kind of the challenge that should be answered
+    nonce_kinds = {} # (realm, nonce) -> kinds of the challenges that carried this nonce, in order
     last_nc = {}
     for st, o in zip(steps, isteps):
         if st.startswith("A"):
@@ -268,6 +269,7 @@ def oracle(case, impl):
                 f = ch.split(",")
                 realm = bytes.fromhex(f[4]).decode("utf-8")
                 kinds.setdefault(realm, set()).add(f[0])
+                nonce_kinds.setdefault((realm, bytes.fromhex(f[5]).decode("utf-8", "replace")), []).append(f[0])
             last_nc_reset = True
             continue
         for h in [x for x in o[2:-1].split(",") if x]:
@@ -280,6 +282,10 @@ def oracle(case, impl):
                 return ["a header was produced for realm %r although no credentials are stored for it" % realm]
             if realm in kinds and ("P" if kind == "P" else "W") not in kinds[realm]:
                 return ["%s header for realm %r which was only challenged with the other header kind" % ("Proxy-Authorization" if kind == "P" else "Authorization", realm)]
+            nk = nonce_kinds.get((realm, d.get("nonce")))
+            if nk and ("P" if kind == "P" else "W") not in nk:
+                return ["the answer to the %s challenge (realm %r, nonce %r) was sent as %s: a Proxy-Authenticate challenge yields Proxy-Authorization and a WWW-Authenticate one Authorization" % (
+                    "Proxy-Authenticate" if nk[-1] == "P" else "WWW-Authenticate", realm, d.get("nonce"), "Proxy-Authorization" if kind == "P" else "Authorization")]
             user, pw = creds
             alg = d.get("algorithm", "MD5")
             sess = alg.lower().endswith("-sess")
